@@ -271,18 +271,18 @@ Proof. intros Hi H f g Hf Hg. apply H; auto. Qed.
 Lemma TG_incl L L' : incl L' L -> TG L -> TG L'.
 Proof. intros Hi H f Hf. apply H; auto. Qed.
 Lemma incl_filter {A} (p : A -> bool) l : incl (filter p l) l.
-Proof. intros x Hx. apply filter_In in Hx. tauto. Qed.
+Proof using. intros x Hx. apply filter_In in Hx. exact (proj1 Hx). Qed.
 Lemma live_incl L : incl (live L) L.
-Proof. unfold live. apply incl_filter. Qed.
+Proof using. unfold live. apply incl_filter. Qed.
 Lemma of_cat_incl c L : incl (of_cat c L) L.
-Proof. unfold of_cat. intros x Hx. apply live_incl. eapply incl_filter; eauto. Qed.
+Proof using. unfold of_cat. intros x Hx. apply live_incl. eapply incl_filter; eauto. Qed.
 Lemma of_cat_cat c L f : In f (of_cat c L) -> category_of f = c.
 Proof.
   unfold of_cat. intros H. apply filter_In in H as [_ H].
   destruct (category_of f), c; cbn in H; congruence.
 Qed.
 Lemma tagged_active_incl T l : incl (tagged_active T l) l.
-Proof. apply incl_filter. Qed.
+Proof using. apply incl_filter. Qed.
 
 Lemma cat_important f : category_of f = CImportant -> is_important f = true.
 Proof.
